@@ -308,6 +308,11 @@ def Comp.kind : Comp → Kind
   | .int _ => .scalar
   | .tScalar _ | .tVec _ => .nonScalar
 
+/-- A scalar index `i` routed through Slice + Squeeze is the slice `i:i+1:1` — except `i = -1`,
+whose end would be 0 (nothing selected): there the end is "to the end" (`dflt`: the int64
+maximum in the converter, which does not know the dimension; the dimension in eager mode). -/
+def scalarStop (i dflt : Int) : Int := if i = -1 then dflt else i + 1
+
 /-- `translate_slice` for one component; `none` = the converter raises. -/
 def convSliceEntry (axis : Nat) (lo hi st : Bnd) : Option SliceEntry :=
   match st with
@@ -327,13 +332,13 @@ def gatherOp (axis : Nat) : Comp → Option PlanOp
   | _ => Option.none
 
 /-- What the Slice path registers for a component at axis `j`: a (non-trivial) slice gives
-`translate_slice`'s entry, a Python int `i` gives `i:i+1:1`. -/
+`translate_slice`'s entry, a Python int `i` gives `i:i+1:1` (`-1:maxint:1` for `i = -1`). -/
 def entryOf (c : Comp) (j : Nat) : Option SliceEntry :=
   match c with
   | .slice lo hi st =>
     if lo = .none ∧ hi = .none ∧ st = .none then Option.none
     else convSliceEntry j lo hi st
-  | .int i => some ⟨j, i, i + 1, 1⟩
+  | .int i => some ⟨j, i, scalarStop i maxint, 1⟩
   | _ => Option.none
 
 def slicedOf (comps : List Comp) : List (Comp × Nat) := comps.zipIdx.filter (fun p => p.1.kind == .sliced)
@@ -406,7 +411,7 @@ def Comp.scalarVal : Comp → Int
 
 /-- What eager mode registers for a component at axis `j` of extent `d`: a (non-trivial) slice
 gives `[start, stop, axis, step]` with `eagerBounds` (a zero step never gets here: `planEager`
-refuses it first, as `slice.indices` does); a rank-0 index `i` gives `i:i+1:1`. -/
+refuses it first, as `slice.indices` does); a rank-0 index `i` gives `i:i+1:1` (`-1:d:1` for `i = -1`). -/
 def entryOfEager (c : Comp) (j : Nat) (d : Nat) : Option SliceEntry :=
   match c with
   | .slice lo hi st =>
@@ -414,7 +419,7 @@ def entryOfEager (c : Comp) (j : Nat) (d : Nat) : Option SliceEntry :=
     else
       let step := (st.val?).getD 1
       some ⟨j, (eagerBounds d lo.val? hi.val? step).1, (eagerBounds d lo.val? hi.val? step).2, step⟩
-  | .int i | .tScalar i => some ⟨j, i, i + 1, 1⟩
+  | .int i | .tScalar i => some ⟨j, i, scalarStop i d, 1⟩
   | _ => Option.none
 
 def eSlicedOf (comps : List Comp) : List (Comp × Nat) := comps.zipIdx.filter (fun p => p.1.isEagerSliced)
@@ -459,7 +464,7 @@ def eagerAxisSlicePath (c : Comp) (srcs : List Nat) : Except Err AxisMap :=
       else .ok (.pick (onnxSliceList srcs (eagerBounds srcs.length lo.val? hi.val? step).1
                           (eagerBounds srcs.length lo.val? hi.val? step).2 step))
   | .int i | .tScalar i => do
-    let s ← single? (onnxSliceList srcs i (i + 1) 1)
+    let s ← single? (onnxSliceList srcs i (scalarStop i srcs.length) 1)
     pure (.drop s)
   | _ => .error .refused
 
@@ -488,7 +493,7 @@ def graphAxisSlicePath (c : Comp) (srcs : List Nat) : Except Err AxisMap :=
        else .ok (.pick (onnxSliceList srcs (convBounds lo.val? hi.val? step).1
                           (convBounds lo.val? hi.val? step).2 step)))
   | .int i => do
-    let s ← single? (onnxSliceList srcs i (i + 1) 1)
+    let s ← single? (onnxSliceList srcs i (scalarStop i maxint) 1)
     pure (.drop s)
   | _ => .error .refused
 
